@@ -99,7 +99,8 @@ def handle (op : String) (j : Json) : Except String Json := do
     let sp := specMask ign ivs
     let m := if path == "mem" then mergeChecked d isz mk else mergeFixed d mk
     -- an interval outside its chromosome is not a valid input of the in-memory merge: an error is demanded
-    let s := if path == "mem" && !(sp.all (fun iv => iv.valid isz)) then none else specMerge d n sp
+    let s := if path == "mem" && !(sp.all (fun iv => iv.valid isz) && sortedAdj (sp.map (fun iv => offset isz iv.c + iv.s)))
+      then none else specMerge d n sp
     pure (reply (optJ objIv m) (some (optJ objIv s)))
   | "clip" | "extend" =>
     let ivs ← getIvZs j
